@@ -187,6 +187,25 @@ class Runner:
                 v.sid = sid
                 d[k] = v
             self.objs[sid] = d
+            # the documented parameter type is Mapping[str, T]: exercise several mapping forms,
+            # including one that invents missing entries on lookup (defaultdict)
+            form = sid % 4
+            if form == 1:
+                import collections
+
+                def invented():
+                    w = V(-1)
+                    w.sid = None
+                    return w
+                m = collections.defaultdict(invented)
+                m.update(d)
+                return sid, m
+            if form == 2:
+                import types
+                return sid, types.MappingProxyType(d)
+            if form == 3:
+                import collections
+                return sid, collections.OrderedDict(d)
             return sid, d
         v = V(x)
         v.sid = sid
@@ -424,6 +443,9 @@ class Runner:
         self.both(f"buf {word} {vs}{draws}", out)
         self.trace.append("add:" + out.replace(" ", "+"))
         after = self.observe(f"after add #{sid}")
+        if self.is_dict and set(val.keys()) != set(x.keys()):
+            self.viol("dict:sample-modified",
+                      f"add() changed the caller's sample: keys {sorted(x.keys())} became {sorted(val.keys())}")
         if self.malformed and not wrong_keys:
             if after is not None:
                 self.content = after
